@@ -519,6 +519,66 @@ func formatLayers(tier string) []Layer {
 			},
 		})
 	}
+	// V4: a digit far below the rounding position must still be seen (and seen once):
+	// kept digits + rounding digit + j filler digits + optional tail digit
+	{
+		keeps := []int{1, 2, 3, 19, 20, 38}
+		maxJ := 60
+		if thorough {
+			maxJ = 120
+		}
+		layers = append(layers, Layer{
+			Name:   "V4-far-sticky-digit",
+			Units:  len(keeps) * 2,
+			Bounds: fmt.Sprintf("x = (p kept digits, last one even/odd)(rounding digit in {0,4,5,9})(j digits all 0 or all 9, j = 0..%d)(nothing | 1), p in %v: mantissas of up to %d digits printed with exactly p significant digits: %%e (prec p−1), %%g (prec p), %%f (digits after the point chosen so that p digits remain), decimal point positions {0,1,5,−3}, ±, 6 modes", maxJ, keeps, 38+2+maxJ),
+			Run: func(c *Ctx, u int) {
+				p := keeps[u/2]
+				kept := "1"
+				for len(kept) < p {
+					kept += string('0' + byte((len(kept)*7)%10))
+				}
+				last := "2"
+				if u%2 == 1 {
+					last = "3"
+				}
+				kept = kept[:p-1] + last
+				for _, rd := range []string{"0", "4", "5", "9"} {
+					for _, fill := range []string{"0", "9"} {
+						for j := 0; j <= maxJ; j++ {
+							for _, tail := range []string{"", "1"} {
+								if c.Done() {
+									return
+								}
+								lit := kept + rd + strings.Repeat(fill, j) + tail
+								lit = strings.TrimRight(lit, "0")
+								if len(lit) <= p {
+									continue // nothing to round
+								}
+								base := mkCoef(false, mustInt(lit), 0, uint32(len(lit))+1, 0)
+								for _, e := range []int64{0, 1, 5, -3} {
+									for _, neg := range []bool{false, true} {
+										for _, m := range M6 {
+											xo := *base
+											xo.Exp = e
+											xo.V.E10 = e - int64(len(xo.Words))*DW
+											xo.Neg, xo.V.Neg = neg, neg
+											xo.Mode = m
+											x := xo.Build()
+											textCase(c, &xo, x, 'e', p-1)
+											textCase(c, &xo, x, 'g', p)
+											if fp := int64(p) - e; fp >= 0 {
+												textCase(c, &xo, x, 'f', int(fp))
+											}
+										}
+									}
+								}
+							}
+						}
+					}
+				}
+			},
+		})
+	}
 	// V3: zeros that previously held a finite value, and all-nines values at the ends of the exponent range
 	{
 		type stale struct {
